@@ -5,7 +5,12 @@
 //! `X509::cert_and_pkey` (generated once per process), all three encryption paddings.
 //! Oracle: the property's three sentences on the implementation's results alone.
 use crate::common::*;
-use opcua::crypto::user_identity::{legacy_password_decrypt, legacy_password_encrypt};
+use opcua::crypto::user_identity::{
+    decrypt_user_identity_token_password, legacy_password_decrypt, legacy_password_encrypt, make_user_name_identity_token,
+};
+use opcua::crypto::SecurityPolicy;
+use opcua::types::service_types::UserTokenPolicy;
+use opcua::types::{UAString, UserTokenType};
 use opcua::crypto::x509::{X509Data, X509};
 use opcua::crypto::{KeySize, PrivateKey, RsaPadding};
 use opcua::types::ByteString;
@@ -55,6 +60,20 @@ fn padding(s: &str) -> Option<RsaPadding> {
         "oaep" => RsaPadding::OaepSha1,
         "oaep256" => RsaPadding::OaepSha256,
         "pss" => RsaPadding::Pkcs1Pss,
+        _ => return None,
+    })
+}
+
+const TOKEN_POLICIES: [&str; 6] = ["none", "basic128rsa15", "basic256", "basic256sha256", "aes128sha256rsaoaep", "aes256sha256rsapss"];
+
+fn sec_policy(s: &str) -> Option<SecurityPolicy> {
+    Some(match s {
+        "none" => SecurityPolicy::None,
+        "basic128rsa15" => SecurityPolicy::Basic128Rsa15,
+        "basic256" => SecurityPolicy::Basic256,
+        "basic256sha256" => SecurityPolicy::Basic256Sha256,
+        "aes128sha256rsaoaep" => SecurityPolicy::Aes128Sha256RsaOaep,
+        "aes256sha256rsapss" => SecurityPolicy::Aes256Sha256RsaPss,
         _ => return None,
     })
 }
@@ -144,7 +163,7 @@ impl Prop for C16 {
             out.push(format!("reset {} {}", bits, pad));
             let k = rng.range(1, 4);
             for _ in 0..k {
-                match rng.weighted(&[10, 6, 4, 3]) {
+                match rng.weighted(&[10, 6, 4, 3, 4]) {
                     0 => {
                         // encrypt with n1, decrypt with n2
                         let pw = password(rng, tier, block);
@@ -303,6 +322,17 @@ impl Prop for C16 {
                         };
                         out.push(format!("raw x{} x{}", hex(&bytes), hex(&nn)));
                     }
+                    4 => {
+                        // the token layer: channel policy × user token policy (empty / a policy / unrecognised)
+                        let chan = *rng.pick(&TOKEN_POLICIES);
+                        let tp = match rng.weighted(&[3, 6, 1]) {
+                            0 => "-",
+                            1 => *rng.pick(&TOKEN_POLICIES),
+                            _ => "bogus",
+                        };
+                        let pw = password(rng, tier, block);
+                        out.push(format!("tok {} {} s{} x{}", chan, tp, hex(pw.as_bytes()), hex(&nonce(rng))));
+                    }
                     _ => {
                         // a real ciphertext, damaged
                         let pw = password(rng, tier, block);
@@ -455,6 +485,51 @@ impl Runner for R {
                 };
                 let dec = legacy_password_decrypt(&secret, &n, &k.pkey, pad);
                 (show_dec(false, clen, &dec), Verdict::Ok)
+            }
+            ["tok", chan, tp, pw, n] => {
+                let (Some(chan_pol), Some(pwb), Some(n)) = (sec_policy(chan), unhex(&pw[1..]), unhex(n)) else { return bad() };
+                let Ok(pw) = String::from_utf8(pwb) else { return bad() };
+                let uri = match *tp {
+                    "-" => UAString::null(),
+                    "bogus" => UAString::from("http://example.org/not-a-security-policy"),
+                    p => match sec_policy(p) {
+                        Some(p) => UAString::from(p.to_uri()),
+                        None => return bad(),
+                    },
+                };
+                let utp = UserTokenPolicy {
+                    policy_id: UAString::from("verif"),
+                    token_type: UserTokenType::UserName,
+                    issued_token_type: UAString::null(),
+                    issuer_endpoint_url: UAString::null(),
+                    security_policy_uri: uri,
+                };
+                let k = key(self.bits).unwrap();
+                let token = match make_user_name_identity_token(chan_pol, &utp, &n, &Some(k.cert.clone()), "user", &pw) {
+                    Ok(t) => t,
+                    Err(e) => return (format!("err enc {}", status_name(e)), Verdict::fail("token_roundtrip", "tok", "token creation failed")),
+                };
+                let alg = match token.encryption_algorithm.as_ref() {
+                    "" => "-",
+                    "http://www.w3.org/2001/04/xmlenc#rsa-1_5" => "rsa15",
+                    "http://www.w3.org/2001/04/xmlenc#rsa-oaep" => "rsaoaep",
+                    "http://opcfoundation.org/UA/security/rsa-oaep-sha2-256" => "rsaoaep256",
+                    _ => "other",
+                };
+                let plen = token.password.value.as_ref().map(|v| v.len()).unwrap_or(0);
+                let dec = decrypt_user_identity_token_password(&token, &n, &k.pkey);
+                let res = match &dec {
+                    Ok(p) => format!("ok {} {} ok s{}", alg, plen, hex(p.as_bytes())),
+                    Err(e) => format!("ok {} {} err {}", alg, plen, status_name(*e)),
+                };
+                // the property at the token level: what the client makes, the server reads back
+                let effective = if *tp == "-" { *chan } else if *tp == "bogus" { "none" } else { *tp };
+                let v = match &dec {
+                    Ok(p) if *p == pw => Verdict::Ok,
+                    Ok(_) => Verdict::fail("token_roundtrip", &format!("tok-{}", effective), "decrypted to a different password"),
+                    Err(e) => Verdict::fail("token_roundtrip", &format!("tok-{}", effective), format!("the server cannot read the token the client made: {}", e)),
+                };
+                (res, v)
             }
             ["mut", kind, p, pw, n] => {
                 let (Ok(p), Some(pwb), Some(n)) = (p.parse::<usize>(), unhex(&pw[1..]), unhex(n)) else { return bad() };
